@@ -204,11 +204,31 @@ def pattern_txt(p):
 # ------------------------------------------------------------------------------------------
 # instructions: dicts {'k': kind, ...}
 
+def attr_xml(name, parts):
+    """one attribute carrying an attribute value template.  A raw template ("raw", text, style) is written exactly as
+    generated: style "dq" = name="..." with &quot; for the quotation mark, "sq" = name='...' with &apos; for the apostrophe,
+    "ref" = both quote characters as character references -- so string literals of both styles are expressible"""
+    if parts and parts[0][0] == "raw":
+        t = parts[0][1].replace("&", "&amp;").replace("<", "&lt;")
+        style = parts[0][2]
+        if style == "sq":
+            return " %s='%s'" % (name, t.replace("'", "&apos;"))
+        if style == "ref":
+            return ' %s="%s"' % (name, t.replace('"', "&#34;").replace("'", "&#39;"))
+        return ' %s="%s"' % (name, t.replace('"', "&quot;"))
+    return ' %s="%s"' % (name, xml_attr(avt_txt(parts)))
+
+
 def avt_txt(parts):
+    if parts and parts[0][0] == "raw":
+        return parts[0][1]
     return "".join(p[1] if p[0] == "l" else "{%s}" % expr_txt(p[1]) for p in parts)
 
 
 def avt_tok(parts):
+    if parts and parts[0][0] == "raw":
+        # the attribute's text as written: the Lean side splits it with its own parser (Avt.avtParse)
+        return "( raw %s )" % enc(parts[0][1])
     return "( " + " ".join("( l %s )" % enc(p[1]) if p[0] == "l" else "( e %s )" % expr_tok(p[1]) for p in parts) + " )"
 
 
@@ -262,7 +282,7 @@ def instr_xml(i):
     if k == "valueof":
         return "<xsl:value-of%s/>" % sel_attr("select", i["e"])
     if k == "lre":
-        a = "".join(' %s="%s"' % (n, xml_attr(avt_txt(v))) for n, v in i["attrs"])
+        a = "".join(attr_xml(n, v) for n, v in i["attrs"])
         u = uses_of(i["body"])
         if u:
             a += ' xsl:use-attribute-sets="%s"' % u
@@ -867,6 +887,48 @@ class Gen:
         return r.weighted([([("l", "urn:q")], 4), ([("l", "urn:p")], 3), ([("l", "urn:o")], 2), ([("l", "")], 1),
                            ([("l", "urn:"), ("e", ("fn", "name", []))], 2), ([("e", ("fn", "substring", [("lit", "urn:q"), ("num", 1), ("fn", "position", [])]))], 1)])
 
+
+    def raw_avt(self):
+        """an attribute value template as TEXT (XSLT 7.6.2), valid by construction: fixed parts with the escapes {{ and }}
+        (also directly next to an expression) and quote characters; one to three {expression} parts; inside them string
+        literals in BOTH quote styles holding braces, doubled braces and the other quote character, as arguments of nested
+        function calls; empty fixed parts between expressions"""
+        r = self.r
+
+        def fixed():
+            return "".join(r.choice(["a", "b", "1", " ", "-", ":", "{{", "}}", "{{", "}}", "'", '"', "x"]) for _ in range(r.weighted([(0, 3), (1, 3), (2, 2), (3, 1)])))
+
+        def strlit():
+            q = r.choice(["'", '"'])
+            other = '"' if q == "'" else "'"
+            return q + "".join(r.choice(["{", "}", "{{", "}}", other, "a", "z", " ", "{x}", "}{"]) for _ in range(r.range(0, 4))) + q
+
+        def expr(depth):
+            c = r.weighted([("lit", 5), ("concat", 3 if depth > 0 else 0), ("slen", 1 if depth > 0 else 0), ("translate", 1 if depth > 0 else 0),
+                            ("sa", 1 if depth > 0 else 0), ("name", 1), ("attr", 1), ("dot", 1), ("num", 1)])
+            if c == "lit":
+                return strlit()
+            if c == "concat":
+                return "concat(%s)" % r.choice([", ", ","]).join(expr(depth - 1) for _ in range(r.range(2, 3)))
+            if c == "slen":
+                return "string-length(%s)" % expr(depth - 1)
+            if c == "translate":
+                return "translate(%s, %s, %s)" % (expr(depth - 1), strlit(), strlit())
+            if c == "sa":
+                return "%s(%s, %s)" % (r.choice(["substring-after", "substring-before"]), expr(depth - 1), strlit())
+            if c == "name":
+                return "name()"
+            if c == "attr":
+                return "@" + r.choice(ANAMES)
+            if c == "num":
+                return str(r.range(0, 12))
+            return "."
+        t = fixed()
+        for _ in range(r.weighted([(1, 4), (2, 3), (3, 1)])):
+            t += "{" + r.choice(["", " "]) + expr(2) + "}" + (fixed() if r.chance(2, 3) else "")
+        self.features.add("raw-avt")
+        return [("raw", t, r.choice(["dq", "sq", "ref"]))]
+
     def attr_instr(self, env, depth, late=False):
         r = self.r
         name = [("l", ("p:" if (self.ns and r.chance(1, 4)) else "") + r.choice(["k", "x", "id", "y"]))]
@@ -971,6 +1033,8 @@ class Gen:
                 for _ in range(r.range(1, 2)):
                     parts.append(("l", r.choice(["v", "a", "1 ", ""])) if r.chance(1, 2) else ("e", r.choice([self.gen_str, self.gen_num])(env, 1)))
                 attrs.append((an, parts))
+            if r.chance(1, 5):
+                attrs.append(("t", self.raw_avt()))
             if self.ns and r.chance(1, 4):
                 attrs.append(("p:a", [("l", "n")]))
             return [{"k": "lre", "name": ("p:" + r.choice(["item", "x"])) if (self.ns and r.chance(1, 3)) else r.choice(OUTNAMES), "attrs": attrs, "body": self.gen_body(env, depth - 1, tctx, in_elem=True)}]
